@@ -130,6 +130,8 @@ def zeroth_fails(case):
                 return 'shape-%s: output %d is not a (D,P)+shape array' % (case['op'], i)
             if a.shape[2:] != r.shape:
                 return 'shape-%s: output %d has coefficient shape %s, NumPy gives %s' % (case['op'], i, a.shape[2:], r.shape)
+            if a.shape[1] <= p:
+                return 'shape-%s: output %d has %d direction(s), the operands have %d' % (case['op'], i, a.shape[1], case['P'])
             if case['op'].startswith('ew:') and case['op'][3:] in EXACT_ZEROTH and not np.array_equal(np.asarray(a[0, p]), r):
                 return 'zeroth-exact-%s: direction %d: the zeroth coefficient is not exactly what the NumPy/SciPy function returns for x_0 (max relative diff %s)' % (
                     case['op'], p, float(np.max(np.abs(np.asarray(a[0, p]) - r) / np.maximum(np.abs(r), 1e-300))))
